@@ -1,6 +1,621 @@
-//! C05 harnesses (see /verif/kani/README.md for conventions)
+//! C05: shifts and bit queries agree with the binary expansion for every shift amount / bit index.
+//!
+//! Widths: Limb, U64, U128 (quick), U192 (thorough), I64, I128, BoxedUint of 1 and 2 limbs. The value, the shift
+//! amount (`u32`, fully symbolic: 0, 63, 64, BITS-1, BITS, 2*BITS+1, u32::MAX are all inside) and the bit index are
+//! symbolic. Oracle: native `<<`, `>>` (logical on u64/u128, arithmetic on i64/i128), `leading_zeros` ... of
+//! u64/u128; for U192 and the 256-bit wide shifts "bit i of the result is bit i-s / i+s of the input" at one
+//! symbolic index i (= all indices).
+//! Out-of-range conventions asserted (from the inherent rustdoc and the property statement):
+//! shl/shr/operators panic iff shift >= BITS; overflowing_* is none iff shift >= BITS (the `_wide` forms: iff
+//! shift >= 2*BITS); wrapping_* of Uint/Int/BoxedUint then return zero (Int >>: the sign fill). `Limb`'s
+//! WrappingShl/WrappingShr mask the shift (num_traits convention) - asserted as such, see the report.
 use crate::*;
+use crate::util::*;
 use crypto_bigint::*;
+use subtle::{Choice, CtOption};
+
+#[cfg(kani)]
+fn no_return() { unsafe { let _ = 255u8.unchecked_add(1); } }
+#[cfg(not(kani))]
+fn no_return() {}
+
+fn wbit(w: &[u64], i: u32) -> bool { (w[(i / 64) as usize] >> (i % 64)) & 1 == 1 }
+fn mk192p(lo: u128, hi: u64) -> U192 { U192::from_words([lo as u64, (lo >> 64) as u64, hi]) }
+fn i64_of(x: &I64) -> i64 { x.as_words()[0] as i64 }
+fn i128_of(x: &I128) -> i128 { let w = x.as_words(); (w[0] as u128 | ((w[1] as u128) << 64)) as i128 }
+fn mki64(a: i64) -> I64 { I64::from_words([a as u64]) }
+fn mki128(a: i128) -> I128 { I128::from_words([a as u128 as u64, ((a as u128) >> 64) as u64]) }
+
+// ------------------------------------------------------------------------------------------ Uint shifts
+/// every non-panicking left-shift route; `good(r)` decides an in-range result, out of range the result is zero / none
+fn uint_shl_np<const L: usize, F: Fn(&Uint<L>) -> bool>(x: Uint<L>, s: u32, good: F) {
+    let ok = s < Uint::<L>::BITS;
+    let chk = |r: &Uint<L>| if ok { good(r) } else { *r == Uint::<L>::ZERO };
+    let chko = |o: Option<Uint<L>>| match o { Some(r) => ok && good(&r), None => !ok };
+    assert!(chko(x.overflowing_shl(s).into()));
+    assert!(chko(x.overflowing_shl_vartime(s).into()));
+    assert!(chko(Option::from(ShlVartime::overflowing_shl_vartime(&x, s))));
+    assert!(chk(&x.wrapping_shl(s)));
+    assert!(chk(&x.wrapping_shl_vartime(s)));
+    assert!(chk(&WrappingShl::wrapping_shl(&x, s)));
+    assert!(chk(&ShlVartime::wrapping_shl_vartime(&x, s)));
+    assert!(chk(&(Wrapping(x) << s).0));
+    assert!(chk(&(&Wrapping(x) << s).0));
+}
+fn uint_shr_np<const L: usize, F: Fn(&Uint<L>) -> bool>(x: Uint<L>, s: u32, good: F) {
+    let ok = s < Uint::<L>::BITS;
+    let chk = |r: &Uint<L>| if ok { good(r) } else { *r == Uint::<L>::ZERO };
+    let chko = |o: Option<Uint<L>>| match o { Some(r) => ok && good(&r), None => !ok };
+    assert!(chko(x.overflowing_shr(s).into()));
+    assert!(chko(x.overflowing_shr_vartime(s).into()));
+    assert!(chko(Option::from(ShrVartime::overflowing_shr_vartime(&x, s))));
+    assert!(chk(&x.wrapping_shr(s)));
+    assert!(chk(&x.wrapping_shr_vartime(s)));
+    assert!(chk(&WrappingShr::wrapping_shr(&x, s)));
+    assert!(chk(&ShrVartime::wrapping_shr_vartime(&x, s)));
+    assert!(chk(&(Wrapping(x) >> s).0));
+    assert!(chk(&(&Wrapping(x) >> s).0));
+}
+/// the panicking left-shift routes: 0 shl, 1 shl_vartime, 2..=4 `x << s` (u32, i32, usize), 5..=7 `&x << s`,
+/// 8..=10 `x <<= s`. `s` < 2^31 is required for the i32 routes to denote the same shift.
+fn uint_shl_p<const L: usize>(f: u8, x: Uint<L>, s: u32) -> Uint<L> {
+    match f {
+        0 => x.shl(s), 1 => x.shl_vartime(s),
+        2 => x << s, 3 => x << (s as i32), 4 => x << (s as usize),
+        5 => &x << s, 6 => &x << (s as i32), 7 => &x << (s as usize),
+        8 => { let mut y = x; y <<= s; y } 9 => { let mut y = x; y <<= s as i32; y } _ => { let mut y = x; y <<= s as usize; y }
+    }
+}
+fn uint_shr_p<const L: usize>(f: u8, x: Uint<L>, s: u32) -> Uint<L> {
+    match f {
+        0 => x.shr(s), 1 => x.shr_vartime(s),
+        2 => x >> s, 3 => x >> (s as i32), 4 => x >> (s as usize),
+        5 => &x >> s, 6 => &x >> (s as i32), 7 => &x >> (s as usize),
+        8 => { let mut y = x; y >>= s; y } 9 => { let mut y = x; y >>= s as i32; y } _ => { let mut y = x; y >>= s as usize; y }
+    }
+}
+const NF: u8 = 11;
+/// routes 3, 6, 9 take an i32: the same shift only below 2^31 (above, the i32 is negative: "invalid shift" panic)
+fn i32_route(f: u8) -> bool { f == 3 || f == 6 || f == 9 }
+
+// ------------------------------------------------------------------------------------------ Int shifts
+fn int_shl_np<const L: usize, F: Fn(&Int<L>) -> bool>(x: Int<L>, s: u32, good: F) {
+    let ok = s < Int::<L>::BITS;
+    let chk = |r: &Int<L>| if ok { good(r) } else { *r == Int::<L>::ZERO };
+    let chko = |o: Option<Int<L>>| match o { Some(r) => ok && good(&r), None => !ok };
+    assert!(chko(x.overflowing_shl(s).into()));
+    assert!(chko(x.overflowing_shl_vartime(s).into()));
+    assert!(chko(Option::from(ShlVartime::overflowing_shl_vartime(&x, s))));
+    assert!(chk(&x.wrapping_shl(s)));
+    assert!(chk(&x.wrapping_shl_vartime(s)));
+    assert!(chk(&WrappingShl::wrapping_shl(&x, s)));
+    assert!(chk(&ShlVartime::wrapping_shl_vartime(&x, s)));
+    assert!(chk(&(Wrapping(x) << s).0));
+    assert!(chk(&(&Wrapping(x) << s).0));
+}
+/// arithmetic right shift: out of range the wrapping forms return the sign fill (0 or -1)
+fn int_shr_np<const L: usize, F: Fn(&Int<L>) -> bool>(x: Int<L>, s: u32, neg: bool, good: F) {
+    let ok = s < Int::<L>::BITS;
+    let fill = if neg { Int::<L>::MINUS_ONE } else { Int::<L>::ZERO };
+    let chk = |r: &Int<L>| if ok { good(r) } else { *r == fill };
+    let chko = |o: Option<Int<L>>| match o { Some(r) => ok && good(&r), None => !ok };
+    assert!(chko(x.overflowing_shr(s).into()));
+    assert!(chko(x.overflowing_shr_vartime(s).into()));
+    assert!(chko(Option::from(ShrVartime::overflowing_shr_vartime(&x, s))));
+    assert!(chk(&x.wrapping_shr(s)));
+    assert!(chk(&x.wrapping_shr_vartime(s)));
+    assert!(chk(&WrappingShr::wrapping_shr(&x, s)));
+    assert!(chk(&ShrVartime::wrapping_shr_vartime(&x, s)));
+    assert!(chk(&(Wrapping(x) >> s).0));
+    assert!(chk(&(&Wrapping(x) >> s).0));
+}
+fn int_shl_p<const L: usize>(f: u8, x: Int<L>, s: u32) -> Int<L> {
+    match f {
+        0 => x.shl(s), 1 => x.shl_vartime(s),
+        2 => x << s, 3 => x << (s as i32), 4 => x << (s as usize),
+        5 => &x << s, 6 => &x << (s as i32), 7 => &x << (s as usize),
+        8 => { let mut y = x; y <<= s; y } 9 => { let mut y = x; y <<= s as i32; y } _ => { let mut y = x; y <<= s as usize; y }
+    }
+}
+fn int_shr_p<const L: usize>(f: u8, x: Int<L>, s: u32) -> Int<L> {
+    match f {
+        0 => x.shr(s), 1 => x.shr_vartime(s),
+        2 => x >> s, 3 => x >> (s as i32), 4 => x >> (s as usize),
+        5 => &x >> s, 6 => &x >> (s as i32), 7 => &x >> (s as usize),
+        8 => { let mut y = x; y >>= s; y } 9 => { let mut y = x; y >>= s as i32; y } _ => { let mut y = x; y >>= s as usize; y }
+    }
+}
+
+// ------------------------------------------------------------------------------------------ bit queries
+/// every bit-query route on `Uint<L>`; expected values come from the caller's native arithmetic:
+/// lz / tz / to = leading zeros, trailing zeros, trailing ones of the BITS-wide value; bit_i = bit `i` (false if
+/// i >= BITS); `set` = x with bit i forced to `bv` (x itself if i >= BITS)
+fn uint_bit_queries<const L: usize>(x: Uint<L>, i: u32, bv: bool, lz: u32, tz: u32, to: u32, bit_i: bool, set: Uint<L>) {
+    let bits = Uint::<L>::BITS;
+    assert!(x.leading_zeros() == lz && x.leading_zeros_vartime() == lz);
+    assert!(BitOps::leading_zeros(&x) == lz && BitOps::leading_zeros_vartime(&x) == lz);
+    assert!(x.bits() == bits - lz && x.bits_vartime() == bits - lz);
+    assert!(BitOps::bits(&x) == bits - lz && BitOps::bits_vartime(&x) == bits - lz);
+    assert!(x.trailing_zeros() == tz && x.trailing_zeros_vartime() == tz);
+    assert!(BitOps::trailing_zeros(&x) == tz && BitOps::trailing_zeros_vartime(&x) == tz);
+    assert!(x.trailing_ones() == to && x.trailing_ones_vartime() == to);
+    assert!(BitOps::trailing_ones(&x) == to && BitOps::trailing_ones_vartime(&x) == to);
+    assert!(bool::from(x.bit(i)) == bit_i && x.bit_vartime(i) == bit_i);
+    assert!(bool::from(BitOps::bit(&x, i)) == bit_i && BitOps::bit_vartime(&x, i) == bit_i);
+    let mut y = x; BitOps::set_bit(&mut y, i, Choice::from(bv as u8)); assert!(y == set);
+    if i < bits { let mut y = x; BitOps::set_bit_vartime(&mut y, i, bv); assert!(y == set); }
+    assert!(BitOps::bits_precision(&x) == bits && BitOps::bytes_precision(&x) == (bits / 8) as usize);
+    assert!(1u32 << BitOps::log2_bits(&x) <= bits && bits < 2u32 << BitOps::log2_bits(&x));
+}
+/// `& | ^ !` on T = Uint / Int: inherent, the four value/reference operator combinations, the two assigning
+/// forms, and the same on `Wrapping<T>`; `$and/$or/$xor/$not` are the expected values
+macro_rules! bitop_forms {
+    ($T:ty, $a:expr, $b:expr, $and:expr, $or:expr, $xor:expr, $not:expr) => {{
+        let (a, b): ($T, $T) = ($a, $b);
+        let (and, or, xor, not): ($T, $T, $T, $T) = ($and, $or, $xor, $not);
+        assert!(a.bitand(&b) == and && (a & b) == and && (a & &b) == and && (&a & b) == and && (&a & &b) == and);
+        assert!(a.bitor(&b) == or && (a | b) == or && (a | &b) == or && (&a | b) == or && (&a | &b) == or);
+        assert!(a.bitxor(&b) == xor && (a ^ b) == xor && (a ^ &b) == xor && (&a ^ b) == xor && (&a ^ &b) == xor);
+        assert!(a.not() == not && (!a) == not);
+        let mut y = a; y &= b; assert!(y == and); let mut y = a; y &= &b; assert!(y == and);
+        let mut y = a; y |= b; assert!(y == or);  let mut y = a; y |= &b; assert!(y == or);
+        let mut y = a; y ^= b; assert!(y == xor); let mut y = a; y ^= &b; assert!(y == xor);
+        let (wa, wb) = (Wrapping(a), Wrapping(b));
+        assert!((wa & wb).0 == and && (wa & &wb).0 == and && (&wa & wb).0 == and && (&wa & &wb).0 == and);
+        assert!((wa | wb).0 == or && (wa | &wb).0 == or && (&wa | wb).0 == or && (&wa | &wb).0 == or);
+        assert!((wa ^ wb).0 == xor && (wa ^ &wb).0 == xor && (&wa ^ wb).0 == xor && (&wa ^ &wb).0 == xor);
+        assert!((!wa).0 == not);
+        let mut y = wa; y &= wb; assert!(y.0 == and); let mut y = wa; y &= &wb; assert!(y.0 == and);
+        let mut y = wa; y |= wb; assert!(y.0 == or);  let mut y = wa; y |= &wb; assert!(y.0 == or);
+        let mut y = wa; y ^= wb; assert!(y.0 == xor); let mut y = wa; y ^= &wb; assert!(y.0 == xor);
+    }};
+}
+
+// ------------------------------------------------------------------------------------------ BoxedUint
+fn bx(n: usize, v: u128) -> BoxedUint {
+    if n == 1 { BoxedUint::from_words([v as u64]) } else { BoxedUint::from_words([v as u64, (v >> 64) as u64]) }
+}
+fn bmask(n: usize) -> u128 { if n == 1 { u64::MAX as u128 } else { u128::MAX } }
+fn bx_is(x: &BoxedUint, n: usize, v: u128) -> bool {
+    if x.nlimbs() != n || x.bits_precision() != 64 * n as u32 { return false; }
+    let w = x.as_words();
+    if w[0] != v as u64 { return false; }
+    if n == 2 { w[1] == (v >> 64) as u64 } else { (v >> 64) == 0 }
+}
+/// x << s on an n-limb value for s < 64n
+fn ref_shl(n: usize, v: u128, s: u32) -> u128 { (v << s) & bmask(n) }
+/// non-panicking boxed shift routes (left if `left`), precision n limbs; part 0: overflowing_* (+ _assign),
+/// part 1: wrapping_* (constant time), part 2: wrapping_*_vartime, *_vartime
+fn boxed_shift_np<S: Src>(s_: &mut S, n: usize, left: bool, part: u8) {
+    let v = s_.u128() & bmask(n); let s = s_.u32();
+    let p = 64 * n as u32;
+    let ok = s < p;
+    let exp = if !ok { 0 } else if left { ref_shl(n, v, s) } else { v >> s };
+    let x = bx(n, v);
+    match (left, part) {
+        (true, 0) => {
+            let (r, o) = x.overflowing_shl(s); assert!(bx_is(&r, n, exp) && bool::from(o) == !ok);
+            let mut y = x.clone(); let o = y.overflowing_shl_assign(s); assert!(bx_is(&y, n, exp) && bool::from(o) == !ok);
+        }
+        (true, 1) => { assert!(bx_is(&x.wrapping_shl(s), n, exp)); }
+        (false, 1) => { assert!(bx_is(&x.wrapping_shr(s), n, exp)); }
+        (true, _) => {
+            assert!(bx_is(&x.wrapping_shl_vartime(s), n, exp));
+            match x.shl_vartime(s) { Some(r) => assert!(ok && bx_is(&r, n, exp)), None => assert!(!ok) }
+        }
+        (false, 0) => {
+            let (r, o) = x.overflowing_shr(s); assert!(bx_is(&r, n, exp) && bool::from(o) == !ok);
+            let mut y = x.clone(); let o = y.overflowing_shr_assign(s); assert!(bx_is(&y, n, exp) && bool::from(o) == !ok);
+        }
+        (false, _) => {
+            assert!(bx_is(&x.wrapping_shr_vartime(s), n, exp));
+            match x.shr_vartime(s) { Some(r) => assert!(ok && bx_is(&r, n, exp)), None => assert!(!ok) }
+        }
+    }
+}
+/// trait routes; part 0: ShlVartime / ShrVartime, part 1: WrappingShl / WrappingShr and `Wrapping<BoxedUint> << / >>`
+fn boxed_shift_traits<S: Src>(s_: &mut S, n: usize, left: bool, part: u8) {
+    let v = s_.u128() & bmask(n); let s = s_.u32();
+    let p = 64 * n as u32;
+    let ok = s < p;
+    let exp = if !ok { 0 } else if left { ref_shl(n, v, s) } else { v >> s };
+    let x = bx(n, v);
+    match (left, part) {
+        (true, 0) => {
+            match Option::<BoxedUint>::from(ShlVartime::overflowing_shl_vartime(&x, s)) { Some(r) => assert!(ok && bx_is(&r, n, exp)), None => assert!(!ok) }
+            assert!(bx_is(&ShlVartime::wrapping_shl_vartime(&x, s), n, exp));
+        }
+        (true, _) => {
+            assert!(bx_is(&WrappingShl::wrapping_shl(&x, s), n, exp));
+            assert!(bx_is(&(&Wrapping(x.clone()) << s).0, n, exp));
+            assert!(bx_is(&(Wrapping(x) << s).0, n, exp));
+        }
+        (false, 0) => {
+            match Option::<BoxedUint>::from(ShrVartime::overflowing_shr_vartime(&x, s)) { Some(r) => assert!(ok && bx_is(&r, n, exp)), None => assert!(!ok) }
+            assert!(bx_is(&ShrVartime::wrapping_shr_vartime(&x, s), n, exp));
+        }
+        (false, _) => {
+            assert!(bx_is(&WrappingShr::wrapping_shr(&x, s), n, exp));
+            assert!(bx_is(&(&Wrapping(x.clone()) >> s).0, n, exp));
+            assert!(bx_is(&(Wrapping(x) >> s).0, n, exp));
+        }
+    }
+}
+/// panicking boxed routes: 0 shl, 1 shl_assign, 2..=4 `x << s` (u32, i32, usize), 5..=7 `&x << s`, 8..=10 `x <<= s`
+fn boxed_shl_p(f: u8, x: &BoxedUint, s: u32) -> BoxedUint {
+    match f {
+        0 => x.shl(s), 1 => { let mut y = x.clone(); y.shl_assign(s); y }
+        2 => x.clone() << s, 3 => x.clone() << (s as i32), 4 => x.clone() << (s as usize),
+        5 => x << s, 6 => x << (s as i32), 7 => x << (s as usize),
+        8 => { let mut y = x.clone(); y <<= s; y } 9 => { let mut y = x.clone(); y <<= s as i32; y } _ => { let mut y = x.clone(); y <<= s as usize; y }
+    }
+}
+fn boxed_shr_p(f: u8, x: &BoxedUint, s: u32) -> BoxedUint {
+    match f {
+        0 => x.shr(s), 1 => { let mut y = x.clone(); y.shr_assign(s); y }
+        2 => x.clone() >> s, 3 => x.clone() >> (s as i32), 4 => x.clone() >> (s as usize),
+        5 => x >> s, 6 => x >> (s as i32), 7 => x >> (s as usize),
+        8 => { let mut y = x.clone(); y >>= s; y } 9 => { let mut y = x.clone(); y >>= s as i32; y } _ => { let mut y = x.clone(); y >>= s as usize; y }
+    }
+}
+/// routes f in [f_lo, f_hi), iterated with a concrete f (a symbolic f makes CBMC execute all 11 arms)
+fn boxed_shift_ops_ok<S: Src>(s_: &mut S, n: usize, left: bool, f_lo: u8, f_hi: u8) {
+    let v = s_.u128() & bmask(n); let s = s_.u32();
+    s_.assume(s < 64 * n as u32); s_.cover(true);
+    let x = bx(n, v);
+    let mut f = f_lo;
+    while f < f_hi {
+        if left { assert!(bx_is(&boxed_shl_p(f, &x, s), n, ref_shl(n, v, s))); }
+        else { assert!(bx_is(&boxed_shr_p(f, &x, s), n, v >> s)); }
+        f += 1;
+    }
+}
+/// every route in [f_lo, f_hi) panics for every shift >= precision (route chosen by the symbolic `sel`)
+fn boxed_shift_ops_panic<S: Src>(s_: &mut S, n: usize, left: bool, f_lo: u8, f_hi: u8) {
+    let v = s_.u128() & bmask(n); let s = s_.u32(); let sel = s_.u8();
+    s_.assume(s >= 64 * n as u32 && f_lo <= sel && sel < f_hi);
+    let x = bx(n, v);
+    let mut f = f_lo;
+    while f < f_hi {
+        if sel == f {
+            let _ = if left { boxed_shl_p(f, &x, s) } else { boxed_shr_p(f, &x, s) };
+            no_return();
+        }
+        f += 1;
+    }
+}
+fn boxed_bit_queries<S: Src>(s_: &mut S, n: usize) {
+    let v = s_.u128() & bmask(n); let i = s_.u32(); let bv = s_.bool();
+    let p = 64 * n as u32;
+    let x = bx(n, v);
+    let (lz, tz, to) = if n == 1 { ((v as u64).leading_zeros(), (v as u64).trailing_zeros(), (v as u64).trailing_ones()) }
+                       else { (v.leading_zeros(), v.trailing_zeros(), v.trailing_ones()) };
+    let bit_i = i < p && (v >> i) & 1 == 1;
+    let set = if i >= p { v } else if bv { v | (1u128 << i) } else { v & !(1u128 << i) };
+    assert!(x.leading_zeros() == lz && BitOps::leading_zeros(&x) == lz && BitOps::leading_zeros_vartime(&x) == lz);
+    assert!(x.bits() == p - lz && x.bits_vartime() == p - lz && BitOps::bits(&x) == p - lz && BitOps::bits_vartime(&x) == p - lz);
+    assert!(x.trailing_zeros() == tz && x.trailing_zeros_vartime() == tz);
+    assert!(BitOps::trailing_zeros(&x) == tz && BitOps::trailing_zeros_vartime(&x) == tz);
+    assert!(x.trailing_ones() == to && x.trailing_ones_vartime() == to);
+    assert!(BitOps::trailing_ones(&x) == to && BitOps::trailing_ones_vartime(&x) == to);
+    assert!(bool::from(x.bit(i)) == bit_i && x.bit_vartime(i) == bit_i);
+    assert!(bool::from(BitOps::bit(&x, i)) == bit_i && BitOps::bit_vartime(&x, i) == bit_i);
+    let mut y = x.clone(); BitOps::set_bit(&mut y, i, Choice::from(bv as u8)); assert!(bx_is(&y, n, set));
+    if i < p { let mut y = x.clone(); BitOps::set_bit_vartime(&mut y, i, bv); assert!(bx_is(&y, n, set)); }
+    assert!(x.bits_precision() == p && BitOps::bits_precision(&x) == p && BitOps::bytes_precision(&x) == 8 * n);
+    assert!(BitOps::log2_bits(&x) == if n == 1 { 6 } else { 7 });
+}
+/// `& | ^ !` on BoxedUint of precisions (la, lb): result precision = widest operand, narrower operand zero-extended
+fn boxed_bitops<S: Src>(s_: &mut S, la: usize, lb: usize) {
+    let a = s_.u128() & bmask(la); let b = s_.u128() & bmask(lb); let f = s_.u8(); s_.assume(f < 5);
+    let n = if la > lb { la } else { lb };
+    let (x, y) = (bx(la, a), bx(lb, b));
+    let r = match f { 0 => x.bitand(&y), 1 => x.clone() & y.clone(), 2 => x.clone() & &y, 3 => &x & y.clone(), _ => &x & &y };
+    assert!(bx_is(&r, n, a & b));
+    let r = match f { 0 => x.bitor(&y), 1 => x.clone() | y.clone(), 2 => x.clone() | &y, 3 => &x | y.clone(), _ => &x | &y };
+    assert!(bx_is(&r, n, a | b));
+    let r = match f { 0 => x.bitxor(&y), 1 => x.clone() ^ y.clone(), 2 => x.clone() ^ &y, 3 => &x ^ y.clone(), _ => &x ^ &y };
+    assert!(bx_is(&r, n, a ^ b));
+    assert!(bx_is(&x.not(), la, !a & bmask(la)));
+    assert!(bx_is(&!x.clone(), la, !a & bmask(la)));
+    assert!(bx_is(&(!Wrapping(x)).0, la, !a & bmask(la)));
+}
 
 harnesses! {
+    // ------------------------------------------------------------------ Limb
+    /// Limb shl/shr and `<< >> <<= >>=` (u32, i32, usize; value and reference) for shift < 64;
+    /// WrappingShl/WrappingShr for every u32 (shift masked to 6 bits: num_traits convention)
+    fn c05_limb_shift_ok(s) {
+        let (a, sh) = (s.u64(), s.u32());
+        let l = Limb(a);
+        assert!(WrappingShl::wrapping_shl(&l, sh).0 == a << (sh % 64));
+        assert!(WrappingShr::wrapping_shr(&l, sh).0 == a >> (sh % 64));
+        assert!((Wrapping(l) << sh).0.0 == a << (sh % 64));
+        assert!((Wrapping(l) >> sh).0.0 == a >> (sh % 64));
+        if sh < 64 {
+            assert!(l.shl(sh).0 == a << sh && l.shr(sh).0 == a >> sh);
+            assert!((l << sh).0 == a << sh && (l << sh as i32).0 == a << sh && (l << sh as usize).0 == a << sh);
+            assert!((&l << sh).0 == a << sh && (&l << sh as i32).0 == a << sh && (&l << sh as usize).0 == a << sh);
+            assert!((l >> sh).0 == a >> sh && (l >> sh as i32).0 == a >> sh && (l >> sh as usize).0 == a >> sh);
+            assert!((&l >> sh).0 == a >> sh && (&l >> sh as i32).0 == a >> sh && (&l >> sh as usize).0 == a >> sh);
+            let mut y = l; y <<= sh; assert!(y.0 == a << sh);
+            let mut y = l; y <<= sh as i32; assert!(y.0 == a << sh);
+            let mut y = l; y <<= sh as usize; assert!(y.0 == a << sh);
+            let mut y = l; y >>= sh; assert!(y.0 == a >> sh);
+            let mut y = l; y >>= sh as i32; assert!(y.0 == a >> sh);
+            let mut y = l; y >>= sh as usize; assert!(y.0 == a >> sh);
+        }
+    }
+    /// Limb shl/shr and all operator routes panic for every shift >= 64 (overflow check of the word shift; this is
+    /// the debug-build behaviour Kani models) and for negative i32 / usize above u32::MAX ("invalid shift")
+    #[kani::should_panic]
+    fn c05_limb_shift_panic(s) {
+        let (a, sh, f) = (s.u64(), s.u32(), s.u8());
+        s.assume(sh >= 64 && f < 16);
+        let l = Limb(a);
+        let mut y = l;
+        match f {
+            0 => { let _ = l.shl(sh); } 1 => { let _ = l.shr(sh); }
+            2 => { let _ = l << sh; } 3 => { let _ = l << sh as i32; } 4 => { let _ = l << sh as usize; }
+            5 => { let _ = &l << sh; } 6 => { let _ = l >> sh; } 7 => { let _ = l >> sh as i32; }
+            8 => { let _ = l >> sh as usize; } 9 => { let _ = &l >> sh; }
+            10 => { y <<= sh; } 11 => { y >>= sh; } 12 => { y <<= sh as i32; } 13 => { y >>= sh as usize; }
+            14 => { let _ = l << ((sh as usize) << 32); } _ => { let _ = l >> ((sh as usize) << 32); }
+        }
+        no_return();
+    }
+    /// Limb bits / leading_zeros / trailing_zeros / trailing_ones and `& | ^ !` (value and assigning forms)
+    fn c05_limb_bits_bitops(s) {
+        let (a, b) = (s.u64(), s.u64());
+        let (l, m) = (Limb(a), Limb(b));
+        assert!(l.leading_zeros() == a.leading_zeros() && l.bits() == 64 - a.leading_zeros());
+        assert!(l.trailing_zeros() == a.trailing_zeros() && l.trailing_ones() == a.trailing_ones());
+        assert!((l & m).0 == a & b && (l | m).0 == a | b && (l ^ m).0 == a ^ b && (!l).0 == !a);
+        assert!(l.bitand(m).0 == a & b && l.bitor(m).0 == a | b && l.bitxor(m).0 == a ^ b && l.not().0 == !a);
+        let mut y = l; y &= m; assert!(y.0 == a & b); let mut y = l; y &= &m; assert!(y.0 == a & b);
+        let mut y = l; y |= m; assert!(y.0 == a | b); let mut y = l; y |= &m; assert!(y.0 == a | b);
+        let mut y = l; y ^= m; assert!(y.0 == a ^ b);
+    }
+
+    // ------------------------------------------------------------------ U64
+    #[kani::unwind(10)]
+    fn c05_u64_shl_np(s) { let (a, sh) = (s.u64(), s.u32()); uint_shl_np(mk64(a), sh, |r| u64_of(r) == a << sh); }
+    #[kani::unwind(10)]
+    fn c05_u64_shr_np(s) { let (a, sh) = (s.u64(), s.u32()); uint_shr_np(mk64(a), sh, |r| u64_of(r) == a >> sh); }
+    /// shl / shl_vartime / `<< <<=` with u32, i32, usize on value and reference: exact for shift < 64
+    #[kani::unwind(10)]
+    fn c05_u64_shl_ops_ok(s) {
+        let (a, sh, f) = (s.u64(), s.u32(), s.u8()); s.assume(sh < 64 && f < NF); s.cover(true);
+        assert!(u64_of(&uint_shl_p(f, mk64(a), sh)) == a << sh);
+    }
+    #[kani::unwind(10)]
+    fn c05_u64_shr_ops_ok(s) {
+        let (a, sh, f) = (s.u64(), s.u32(), s.u8()); s.assume(sh < 64 && f < NF); s.cover(true);
+        assert!(u64_of(&uint_shr_p(f, mk64(a), sh)) == a >> sh);
+    }
+    /// ... and every route panics for every shift >= 64 (i32 routes: also for the negative reinterpretation)
+    #[kani::should_panic] #[kani::unwind(10)]
+    fn c05_u64_shl_ops_panic(s) {
+        let (a, sh, f) = (s.u64(), s.u32(), s.u8()); s.assume(sh >= 64 && f < NF);
+        let _ = uint_shl_p(f, mk64(a), sh); no_return();
+    }
+    #[kani::should_panic] #[kani::unwind(10)]
+    fn c05_u64_shr_ops_panic(s) {
+        let (a, sh, f) = (s.u64(), s.u32(), s.u8()); s.assume(sh >= 64 && f < NF);
+        let _ = uint_shr_p(f, mk64(a), sh); no_return();
+    }
+    /// usize shifts above u32::MAX are rejected ("invalid shift") whatever their low 32 bits
+    #[kani::should_panic] #[kani::unwind(10)]
+    fn c05_u64_shift_usize_invalid_panic(s) {
+        let (a, sh, left) = (s.u64(), s.usize(), s.bool()); s.assume(sh > u32::MAX as usize);
+        let _ = if left { mk64(a) << sh } else { mk64(a) >> sh }; no_return();
+    }
+    /// double-width shifts of (lo, hi): none iff shift >= 128, else the 128-bit shift
+    #[kani::unwind(10)]
+    fn c05_u64_wide(s) {
+        let (v, sh) = (s.u128(), s.u32());
+        let (lo, hi) = (mk64(v as u64), mk64((v >> 64) as u64));
+        match Option::<(U64, U64)>::from(U64::overflowing_shl_vartime_wide((lo, hi), sh)) {
+            Some((l, h)) => { assert!(sh < 128); assert!((u64_of(&l) as u128 | ((u64_of(&h) as u128) << 64)) == v << sh); }
+            None => assert!(sh >= 128),
+        }
+        match Option::<(U64, U64)>::from(U64::overflowing_shr_vartime_wide((lo, hi), sh)) {
+            Some((l, h)) => { assert!(sh < 128); assert!((u64_of(&l) as u128 | ((u64_of(&h) as u128) << 64)) == v >> sh); }
+            None => assert!(sh >= 128),
+        }
+    }
+    fn c05_u64_bit_queries(s) {
+        let (a, i, bv) = (s.u64(), s.u32(), s.bool());
+        let bit_i = i < 64 && (a >> i) & 1 == 1;
+        let set = if i >= 64 { a } else if bv { a | (1u64 << i) } else { a & !(1u64 << i) };
+        uint_bit_queries(mk64(a), i, bv, a.leading_zeros(), a.trailing_zeros(), a.trailing_ones(), bit_i, mk64(set));
+    }
+    fn c05_u64_bitops(s) {
+        let (a, b) = (s.u64(), s.u64());
+        bitop_forms!(U64, mk64(a), mk64(b), mk64(a & b), mk64(a | b), mk64(a ^ b), mk64(!a));
+    }
+
+    // ------------------------------------------------------------------ U128
+    #[kani::unwind(10)]
+    fn c05_u128_shl_np(s) { let (a, sh) = (s.u128(), s.u32()); uint_shl_np(mk128(a), sh, |r| u128_of(r) == a << sh); }
+    #[kani::unwind(10)]
+    fn c05_u128_shr_np(s) { let (a, sh) = (s.u128(), s.u32()); uint_shr_np(mk128(a), sh, |r| u128_of(r) == a >> sh); }
+    #[kani::unwind(10)]
+    fn c05_u128_shl_ops_ok(s) {
+        let (a, sh, f) = (s.u128(), s.u32(), s.u8()); s.assume(sh < 128 && f < NF); s.cover(true);
+        assert!(u128_of(&uint_shl_p(f, mk128(a), sh)) == a << sh);
+    }
+    #[kani::unwind(10)]
+    fn c05_u128_shr_ops_ok(s) {
+        let (a, sh, f) = (s.u128(), s.u32(), s.u8()); s.assume(sh < 128 && f < NF); s.cover(true);
+        assert!(u128_of(&uint_shr_p(f, mk128(a), sh)) == a >> sh);
+    }
+    #[kani::should_panic] #[kani::unwind(10)]
+    fn c05_u128_shl_ops_panic(s) {
+        let (a, sh, f) = (s.u128(), s.u32(), s.u8()); s.assume(sh >= 128 && f < NF);
+        let _ = uint_shl_p(f, mk128(a), sh); no_return();
+    }
+    #[kani::should_panic] #[kani::unwind(10)]
+    fn c05_u128_shr_ops_panic(s) {
+        let (a, sh, f) = (s.u128(), s.u32(), s.u8()); s.assume(sh >= 128 && f < NF);
+        let _ = uint_shr_p(f, mk128(a), sh); no_return();
+    }
+    /// 256-bit shifts of (lo, hi): none iff shift >= 256; bit i of the result = bit i -/+ shift of the input (i symbolic)
+    #[kani::unwind(10)]
+    fn c05_u128_wide_shl(s) {
+        let w: [u64; 4] = s.words(); let (sh, i) = (s.u32(), s.u32()); s.assume(i < 256);
+        let (lo, hi) = (U128::from_words([w[0], w[1]]), U128::from_words([w[2], w[3]]));
+        match Option::<(U128, U128)>::from(U128::overflowing_shl_vartime_wide((lo, hi), sh)) {
+            Some((l, h)) => {
+                assert!(sh < 256);
+                let r = [l.as_words()[0], l.as_words()[1], h.as_words()[0], h.as_words()[1]];
+                assert!(wbit(&r, i) == (i >= sh && wbit(&w, i - sh)));
+            }
+            None => assert!(sh >= 256),
+        }
+    }
+    #[kani::unwind(10)]
+    fn c05_u128_wide_shr(s) {
+        let w: [u64; 4] = s.words(); let (sh, i) = (s.u32(), s.u32()); s.assume(i < 256);
+        let (lo, hi) = (U128::from_words([w[0], w[1]]), U128::from_words([w[2], w[3]]));
+        match Option::<(U128, U128)>::from(U128::overflowing_shr_vartime_wide((lo, hi), sh)) {
+            Some((l, h)) => {
+                assert!(sh < 256);
+                let r = [l.as_words()[0], l.as_words()[1], h.as_words()[0], h.as_words()[1]];
+                assert!(wbit(&r, i) == (sh < 256 - i && wbit(&w, i + sh)));
+            }
+            None => assert!(sh >= 256),
+        }
+    }
+    fn c05_u128_bit_queries(s) {
+        let (a, i, bv) = (s.u128(), s.u32(), s.bool());
+        let bit_i = i < 128 && (a >> i) & 1 == 1;
+        let set = if i >= 128 { a } else if bv { a | (1u128 << i) } else { a & !(1u128 << i) };
+        uint_bit_queries(mk128(a), i, bv, a.leading_zeros(), a.trailing_zeros(), a.trailing_ones(), bit_i, mk128(set));
+    }
+    fn c05_u128_bitops(s) {
+        let (a, b) = (s.u128(), s.u128());
+        bitop_forms!(U128, mk128(a), mk128(b), mk128(a & b), mk128(a | b), mk128(a ^ b), mk128(!a));
+    }
+
+    // ------------------------------------------------------------------ U192 (thorough; 3 limbs: not a power of two)
+    #[kani::unwind(12)]
+    fn c05t_u192_shl_np(s) {
+        let w: [u64; 3] = s.words(); let (sh, i) = (s.u32(), s.u32()); s.assume(i < 192);
+        uint_shl_np(mk192(w), sh, |r| wbit(r.as_words(), i) == (i >= sh && wbit(&w, i - sh)));
+    }
+    #[kani::unwind(12)]
+    fn c05t_u192_shr_np(s) {
+        let w: [u64; 3] = s.words(); let (sh, i) = (s.u32(), s.u32()); s.assume(i < 192);
+        uint_shr_np(mk192(w), sh, |r| wbit(r.as_words(), i) == (sh < 192 - i && wbit(&w, i + sh)));
+    }
+    #[kani::unwind(12)]
+    fn c05t_u192_shift_ops_ok(s) {
+        let w: [u64; 3] = s.words(); let (sh, i, f) = (s.u32(), s.u32(), s.u8()); s.assume(i < 192 && sh < 192 && f < NF);
+        let r = uint_shl_p(f, mk192(w), sh); assert!(wbit(r.as_words(), i) == (i >= sh && wbit(&w, i - sh)));
+        let r = uint_shr_p(f, mk192(w), sh); assert!(wbit(r.as_words(), i) == (sh < 192 - i && wbit(&w, i + sh)));
+    }
+    #[kani::should_panic] #[kani::unwind(12)]
+    fn c05t_u192_shift_ops_panic(s) {
+        let w: [u64; 3] = s.words(); let (sh, f, left) = (s.u32(), s.u8(), s.bool()); s.assume(sh >= 192 && f < NF);
+        let _ = if left { uint_shl_p(f, mk192(w), sh) } else { uint_shr_p(f, mk192(w), sh) }; no_return();
+    }
+    fn c05t_u192_bit_queries(s) {
+        let (lo, hi, i, bv) = (s.u128(), s.u64(), s.u32(), s.bool());
+        let lz = if hi != 0 { hi.leading_zeros() } else { 64 + lo.leading_zeros() };
+        let tz = if lo != 0 { lo.trailing_zeros() } else { 128 + hi.trailing_zeros() };
+        let to = if lo != u128::MAX { lo.trailing_ones() } else { 128 + hi.trailing_ones() };
+        let bit_i = if i < 128 { (lo >> i) & 1 == 1 } else if i < 192 { (hi >> (i - 128)) & 1 == 1 } else { false };
+        let (slo, shi) = if i < 128 { (if bv { lo | (1u128 << i) } else { lo & !(1u128 << i) }, hi) }
+                         else if i < 192 { (lo, if bv { hi | (1u64 << (i - 128)) } else { hi & !(1u64 << (i - 128)) }) }
+                         else { (lo, hi) };
+        uint_bit_queries(mk192p(lo, hi), i, bv, lz, tz, to, bit_i, mk192p(slo, shi));
+    }
+
+    // ------------------------------------------------------------------ I64 / I128
+    #[kani::unwind(10)]
+    fn c05_i64_shl_np(s) { let (a, sh) = (s.i64(), s.u32()); int_shl_np(mki64(a), sh, |r| i64_of(r) == a << sh); }
+    /// arithmetic right shift vs i64 `>>`; out of range: none / sign fill
+    #[kani::unwind(10)]
+    fn c05_i64_shr_np(s) { let (a, sh) = (s.i64(), s.u32()); int_shr_np(mki64(a), sh, a < 0, |r| i64_of(r) == a >> sh); }
+    #[kani::unwind(10)]
+    fn c05_i64_shift_ops_ok(s) {
+        let (a, sh, f) = (s.i64(), s.u32(), s.u8()); s.assume(sh < 64 && f < NF); s.cover(true);
+        assert!(i64_of(&int_shl_p(f, mki64(a), sh)) == a << sh);
+        assert!(i64_of(&int_shr_p(f, mki64(a), sh)) == a >> sh);
+    }
+    #[kani::should_panic] #[kani::unwind(10)]
+    fn c05_i64_shift_ops_panic(s) {
+        let (a, sh, f, left) = (s.i64(), s.u32(), s.u8(), s.bool()); s.assume(sh >= 64 && f < NF);
+        let _ = if left { int_shl_p(f, mki64(a), sh) } else { int_shr_p(f, mki64(a), sh) }; no_return();
+    }
+    #[kani::unwind(10)]
+    fn c05_i128_shl_np(s) { let (a, sh) = (s.i128(), s.u32()); int_shl_np(mki128(a), sh, |r| i128_of(r) == a << sh); }
+    #[kani::unwind(10)]
+    fn c05_i128_shr_np(s) { let (a, sh) = (s.i128(), s.u32()); int_shr_np(mki128(a), sh, a < 0, |r| i128_of(r) == a >> sh); }
+    #[kani::unwind(10)]
+    fn c05_i128_shl_ops_ok(s) {
+        let (a, sh, f) = (s.i128(), s.u32(), s.u8()); s.assume(sh < 128 && f < NF); s.cover(true);
+        assert!(i128_of(&int_shl_p(f, mki128(a), sh)) == a << sh);
+    }
+    #[kani::unwind(10)]
+    fn c05_i128_shr_ops_ok(s) {
+        let (a, sh, f) = (s.i128(), s.u32(), s.u8()); s.assume(sh < 128 && f < NF); s.cover(true);
+        assert!(i128_of(&int_shr_p(f, mki128(a), sh)) == a >> sh);
+    }
+    #[kani::should_panic] #[kani::unwind(10)]
+    fn c05_i128_shift_ops_panic(s) {
+        let (a, sh, f, left) = (s.i128(), s.u32(), s.u8(), s.bool()); s.assume(sh >= 128 && f < NF);
+        let _ = if left { int_shl_p(f, mki128(a), sh) } else { int_shr_p(f, mki128(a), sh) }; no_return();
+    }
+    fn c05_i128_bitops(s) {
+        let (a, b) = (s.i128(), s.i128());
+        bitop_forms!(I128, mki128(a), mki128(b), mki128(a & b), mki128(a | b), mki128(a ^ b), mki128(!a));
+    }
+
+    // ------------------------------------------------------------------ BoxedUint
+    /// shl/shr/shl_assign/shr_assign and `<< >> <<= >>=` (u32, i32, usize; value, reference): 1 limb quick, 2 limbs thorough;
+    /// `_a`: routes 0..5 (shl, shl_assign, value << u32/i32/usize), `_b`: routes 5..11 (reference <<, <<=)
+    #[kani::unwind(10)] fn c05_boxed_shl_overflowing_1(s) { boxed_shift_np(s, 1, true, 0); }
+    #[kani::unwind(10)] fn c05_boxed_shl_wrapping_1(s) { boxed_shift_np(s, 1, true, 1); }
+    #[kani::unwind(10)] fn c05_boxed_shl_vartime_1(s) { boxed_shift_np(s, 1, true, 2); }
+    #[kani::unwind(10)] fn c05_boxed_shl_trait_vartime_1(s) { boxed_shift_traits(s, 1, true, 0); }
+    #[kani::unwind(10)] fn c05_boxed_shl_trait_wrapping_1(s) { boxed_shift_traits(s, 1, true, 1); }
+    #[kani::unwind(10)] fn c05_boxed_shl_overflowing_2(s) { boxed_shift_np(s, 2, true, 0); }
+    #[kani::unwind(10)] fn c05_boxed_shl_wrapping_2(s) { boxed_shift_np(s, 2, true, 1); }
+    #[kani::unwind(10)] fn c05_boxed_shl_vartime_2(s) { boxed_shift_np(s, 2, true, 2); }
+    #[kani::unwind(10)] fn c05_boxed_shl_trait_vartime_2(s) { boxed_shift_traits(s, 2, true, 0); }
+    #[kani::unwind(10)] fn c05_boxed_shl_trait_wrapping_2(s) { boxed_shift_traits(s, 2, true, 1); }
+    #[kani::unwind(10)] fn c05_boxed_shr_overflowing_1(s) { boxed_shift_np(s, 1, false, 0); }
+    #[kani::unwind(10)] fn c05_boxed_shr_wrapping_1(s) { boxed_shift_np(s, 1, false, 1); }
+    #[kani::unwind(10)] fn c05_boxed_shr_vartime_1(s) { boxed_shift_np(s, 1, false, 2); }
+    #[kani::unwind(10)] fn c05_boxed_shr_trait_vartime_1(s) { boxed_shift_traits(s, 1, false, 0); }
+    #[kani::unwind(10)] fn c05_boxed_shr_trait_wrapping_1(s) { boxed_shift_traits(s, 1, false, 1); }
+    #[kani::unwind(10)] fn c05_boxed_shr_overflowing_2(s) { boxed_shift_np(s, 2, false, 0); }
+    #[kani::unwind(10)] fn c05_boxed_shr_wrapping_2(s) { boxed_shift_np(s, 2, false, 1); }
+    #[kani::unwind(10)] fn c05_boxed_shr_vartime_2(s) { boxed_shift_np(s, 2, false, 2); }
+    #[kani::unwind(10)] fn c05_boxed_shr_trait_vartime_2(s) { boxed_shift_traits(s, 2, false, 0); }
+    #[kani::unwind(10)] fn c05_boxed_shr_trait_wrapping_2(s) { boxed_shift_traits(s, 2, false, 1); }
+    #[kani::unwind(10)] fn c05_boxed_shl_ops_ok_a_1(s) { boxed_shift_ops_ok(s, 1, true, 0, 5); }
+    #[kani::unwind(10)] fn c05_boxed_shl_ops_ok_b_1(s) { boxed_shift_ops_ok(s, 1, true, 5, NF); }
+    #[kani::should_panic] #[kani::unwind(10)] fn c05_boxed_shl_ops_panic_a_1(s) { boxed_shift_ops_panic(s, 1, true, 0, 5); }
+    #[kani::should_panic] #[kani::unwind(10)] fn c05_boxed_shl_ops_panic_b_1(s) { boxed_shift_ops_panic(s, 1, true, 5, NF); }
+    #[kani::unwind(10)] fn c05t_boxed_shl_ops_ok_a_2(s) { boxed_shift_ops_ok(s, 2, true, 0, 5); }
+    #[kani::unwind(10)] fn c05t_boxed_shl_ops_ok_b_2(s) { boxed_shift_ops_ok(s, 2, true, 5, NF); }
+    #[kani::should_panic] #[kani::unwind(10)] fn c05t_boxed_shl_ops_panic_a_2(s) { boxed_shift_ops_panic(s, 2, true, 0, 5); }
+    #[kani::should_panic] #[kani::unwind(10)] fn c05t_boxed_shl_ops_panic_b_2(s) { boxed_shift_ops_panic(s, 2, true, 5, NF); }
+    #[kani::unwind(10)] fn c05_boxed_shr_ops_ok_a_1(s) { boxed_shift_ops_ok(s, 1, false, 0, 5); }
+    #[kani::unwind(10)] fn c05_boxed_shr_ops_ok_b_1(s) { boxed_shift_ops_ok(s, 1, false, 5, NF); }
+    #[kani::should_panic] #[kani::unwind(10)] fn c05_boxed_shr_ops_panic_a_1(s) { boxed_shift_ops_panic(s, 1, false, 0, 5); }
+    #[kani::should_panic] #[kani::unwind(10)] fn c05_boxed_shr_ops_panic_b_1(s) { boxed_shift_ops_panic(s, 1, false, 5, NF); }
+    #[kani::unwind(10)] fn c05t_boxed_shr_ops_ok_a_2(s) { boxed_shift_ops_ok(s, 2, false, 0, 5); }
+    #[kani::unwind(10)] fn c05t_boxed_shr_ops_ok_b_2(s) { boxed_shift_ops_ok(s, 2, false, 5, NF); }
+    #[kani::should_panic] #[kani::unwind(10)] fn c05t_boxed_shr_ops_panic_a_2(s) { boxed_shift_ops_panic(s, 2, false, 0, 5); }
+    #[kani::should_panic] #[kani::unwind(10)] fn c05t_boxed_shr_ops_panic_b_2(s) { boxed_shift_ops_panic(s, 2, false, 5, NF); }
+    fn c05_boxed_bit_queries_1(s) { boxed_bit_queries(s, 1); }
+    fn c05_boxed_bit_queries_2(s) { boxed_bit_queries(s, 2); }
+    fn c05_boxed_bitops_11(s) { boxed_bitops(s, 1, 1); }
+    fn c05_boxed_bitops_12(s) { boxed_bitops(s, 1, 2); }
+    fn c05_boxed_bitops_21(s) { boxed_bitops(s, 2, 1); }
+    fn c05_boxed_bitops_22(s) { boxed_bitops(s, 2, 2); }
 }
